@@ -506,12 +506,119 @@ def gen_grammars(vs):
             R('lambdef_nocond'), R('parameters'), R('tfpdef'), R('fpdef')))
         out.append('Definition tr_%s := match all_transitions gram_%s 200 (g_states gram_%s) with GOk t => t | GErr _ => [] end.' % (n, n, n))
         out.append('Definition start_%s : N := %d.' % (n, R(pg.start_nonterminal)))
+        # candidate FOLLOW table (least fixpoint computed here, only CHECKED in Coq to be a post-fixpoint without conflicts);
+        # LRes 0 is the end-of-input marker that may follow the start rules
+        from parso.pgen2.generator import ReservedString as _RS
+        tlab = lambda t: ('LRes %d' % resid[t.value]) if isinstance(t, _RS) else ('LType %s' % t.name)
+        follow = {r: set() for r in rules}
+        for r in ('file_input', 'eval_input', 'single_input'):
+            if r in follow:
+                follow[r].add('LRes 0')
+        changed = True
+        while changed:
+            changed = False
+            for A in rules:
+                for s in pg.nonterminal_to_dfas[A]:
+                    for B, nxt in s.nonterminal_arcs.items():
+                        add = set(tlab(t) for t in nxt.transitions)
+                        if nxt.is_final:
+                            add |= follow[A]
+                        if not add <= follow[B]:
+                            follow[B] |= add
+                            changed = True
+        out.append('Definition fw_%s : list (N * list label) := [%s].' % (n, ';'.join(
+            '(%d, [%s])' % (rid[r], ';'.join(sorted(follow[r]))) for r in rules)))
         meta[v] = {'rid': rid, 'plans': gi['plans'], 'res': resid, 'start': pg.start_nonterminal,
                    'nstates': len(sid)}
     out.append('Definition grams : list (N * (gram * list (N * list (label * plan)))) := [%s].' % ';'.join(
         '(%s, (gram_%s, tr_%s))' % (vn(v), vn(v), vn(v)) for v in vs))
     write_if_changed(os.path.join(GEN, 'Grammars.v'), '\n'.join(out) + '\n')
     return meta
+
+
+def derivation_for(pg, toks, start='file_input'):
+    """LL(1) parse WITHOUT single-child collapse: the derivation tree of a token list (type, value) over the rule automata"""
+    from parso.pgen2.generator import ReservedString
+    dfas = pg.nonterminal_to_dfas
+    stack = [[start, dfas[start][0], []]]
+
+    def key(tok):
+        typ, val = tok
+        if typ.name in ('NAME', 'OP') and val in pg.reserved_syntax_strings:
+            return pg.reserved_syntax_strings[val]
+        return typ
+    for i, tok in enumerate(toks):
+        k = key(tok)
+        while True:
+            rule, state, kids = stack[-1]
+            plan = state.transitions.get(k)
+            if plan is not None:
+                stack[-1][1] = plan.next_dfa
+                for push in plan.dfa_pushes:
+                    stack.append([push.from_rule, push, []])
+                stack[-1][2].append(('L', i))
+                break
+            if not state.is_final or len(stack) < 2:
+                raise TranslatorError('example sentence is not derivable at token %d %r (stack %s)' % (i, tok, [f[0] for f in stack]))
+            stack.pop()
+            stack[-1][2].append(('N', rule, kids))
+    while len(stack) > 1:
+        rule, state, kids = stack.pop()
+        if not state.is_final:
+            raise TranslatorError('example sentence is incomplete')
+        stack[-1][2].append(('N', rule, kids))
+    return ('N', stack[0][0], stack[0][2])
+
+
+EXAMPLE = 'if x:\n    pass\ny = f(1, *a)\n'
+
+
+def gen_ll1(vs):
+    """table obligation: the dumped automata + plan table + FOLLOW candidate satisfy the hypotheses of LL1.complete;
+    corollary for this grammar; a concrete derivation as non-vacuity example"""
+    import parso
+    from parso.python.tokenize import tokenize
+    from parso.utils import parse_version_string
+    for v in vs:
+        n = vn(v)
+        gi = grammar_info(v)
+        pg, rid, resid = gi['pg'], gi['rid'], gi['resid']
+        toks = list(tokenize(EXAMPLE, version_info=parse_version_string(v)))
+        d = derivation_for(pg, [(t.type, t.string) for t in toks])
+
+        def lab(t):
+            if t.type.name in ('NAME', 'OP') and t.string in pg.reserved_syntax_strings:
+                return 'LRes %d' % resid[t.string]
+            return 'LType %s' % t.type.name
+
+        def emit(x):
+            if x[0] == 'L':
+                return 'DLeaf tree label N (%s) (convert_leaf gram_%s (nth %d ex_toks_%s ex_tok0))' % (lab(toks[x[1]]), n, x[1], n)
+            return 'DNode tree label N %d [%s]' % (rid[x[1]], '; '.join(emit(k) for k in x[2]))
+        F = rid['file_input']
+        out = ['(* GENERATED by harness/translator.py - do not edit *)', 'Require Import Regex Tok Engine LL1 LL1Inst LL1Engine Grammars.',
+               'From Coq Require Import List NArith ZArith Bool.', 'Import ListNotations.', 'Open Scope N_scope.',
+               '(* table obligation: every hypothesis of the completeness theorem holds for the tables of this grammar *)',
+               'Lemma ll1_tables_ok_%s : tables_ok gram_%s tr_%s fw_%s 200 = true.' % (n, n, n, n),
+               'Proof. vm_compute. reflexivity. Qed.',
+               '(* hence: strict parsing of any sentence of any rule of this grammar returns its collapsed derivation (or a conversion failure) *)',
+               'Theorem C06_complete_%s : forall F kb t toks,' % n,
+               '  wf tree N label N (arcT gram_%s) (arcN gram_%s) (startR gram_%s) (final gram_%s) (validR gram_%s) (DNode tree label N F kb) ->' % (n, n, n, n, n),
+               '  FW fw_%s F t = true -> word_of gram_%s toks = yield tree label N (DNode tree label N F kb) ->' % (n, n),
+               '  parse gram_%s tr_%s false F toks = convert_node gram_%s F (map (collapse tree label N (mk_node gram_%s)) kb)' % (n, n, n, n),
+               '  \\/ exists e, conv_err e /\\ parse gram_%s tr_%s false F toks = PErr e.' % (n, n),
+               'Proof. exact (engine_complete gram_%s tr_%s fw_%s 200 ll1_tables_ok_%s). Qed.' % (n, n, n, n),
+               '(* non-vacuity: the derivation of %r (built outside Coq, checked here) meets every premise, and the engine returns exactly its collapse *)' % EXAMPLE,
+               'Definition ex_tok0 : Token := mkTok ENDMARKER [] 0 0 [].',
+               'Definition ex_toks_%s : list Token := [%s].' % (n, '; '.join(
+                   'mkTok %s %s %d %d %s' % (t.type.name, S(t.string), t.start_pos[0], t.start_pos[1], S(t.prefix)) for t in toks)),
+               'Definition ex_deriv_%s : dtree tree label N := %s.' % (n, emit(d)),
+               'Example C06_nonvacuous_%s :' % n,
+               '  wfb gram_%s tree ex_deriv_%s = true /\\ FW fw_%s %d (LRes 0) = true /\\' % (n, n, n, F),
+               '  word_of gram_%s ex_toks_%s = yield tree label N ex_deriv_%s /\\' % (n, n, n),
+               '  match ex_deriv_%s with DNode _ _ _ F kb => parse gram_%s tr_%s false F ex_toks_%s = convert_node gram_%s F (map (collapse tree label N (mk_node gram_%s)) kb) | _ => False end.' % (n, n, n, n, n, n),
+               'Proof. vm_compute. repeat split. Qed.']
+        write_if_changed(os.path.join(GEN, 'LL1_%s.v' % n), '\n'.join(out) + '\n')
 
 
 def gen_rules(vs):
@@ -558,6 +665,7 @@ def main():
     meta['tables'] = gen_tables(vs)
     meta['grammars'] = gen_grammars(vs)
     meta['rules'] = gen_rules(vs)
+    gen_ll1(vs)
     write_if_changed(os.path.join(GEN, 'meta.json'), json.dumps(meta, sort_keys=True))
     return meta
 
